@@ -1,7 +1,7 @@
 (* C13: define-then-delete is the identity; feature dependencies stay consistent
    (statements only; proofs in DepsProofs.v / DepsTables.v). *)
 From Coq Require Import ZArith List Bool Arith Lia.
-From CV Require Import C13.DepsModel C13.DepsProofs C13.DepsTables C13.ModuleModel C13.ModuleProofs Gen.GenDeps.
+From CV Require Import C13.DepsModel C13.InvModel C13.DepsProofs C13.DepsTables C13.ModuleModel C13.ModuleProofs C13.DepsInv C13.ModuleInv Gen.GenDeps.
 Import ListNotations.
 
 (* ---- table theorems, re-checked on every run against the tables dumped from the binary ---- *)
@@ -257,6 +257,7 @@ Definition ex_ops : list mop :=
   [MNewColvar (ex_avail 38) [(ex_avail 18, [(ex_avail 11, [1; 2]); (ex_avail 11, [3])])];
    MNewColvar (ex_avail 38) [(ex_avail 18, [(ex_avail 11, [1])])];
    MNewBias (ex_avail 17) [0; 4];
+   MPrim (OpEnable 0 34 false true false); MPrim (OpEnable 4 34 false true false);   (* scalar, as colvar::init sets it *)
    MPrim (OpEnable 0 0 false true false); MPrim (OpEnable 4 0 false true false); MPrim (OpEnable 7 0 false true false);
    MDeleteColvar 0].
 
@@ -268,3 +269,82 @@ Example C13_example_define_delete : exists m',
   (* the surviving variable has lost "active" with its last bias: the known finding variable-deactivated-when-last-bias-deleted *)
   is_enabled (m_objs m') 4 0 = false.
 Proof. eexists. split; [vm_compute; reflexivity|]. repeat split. Qed.
+
+(* ==== reference counts (InvModel.v: need, excess; DepsInv.v) ====
+   need T s o g = what the state accounts for on feature g of object o: enabled features of o listing g in requires_self
+   + recorded alternate_refs + (for every ACTIVE object p) occurrences of o among p's children x enabled features of p
+   listing g in requires_children;  excess = ref_count - need.
+   consistent T s = every excess >= 0 and every disabled feature has ref_count <= 0. *)
+
+(* Main lemma, full generality (any tables, any state whose object graph has a height decreasing from parent to child,
+   any object, feature, fuel, successful or refused call, with all cascades of automatic disables through the object and
+   its descendants): a complete call of disable never lowers the excess of any feature of any object: every reference it
+   releases is matched by a requirement that disappears with it. *)
+Theorem C13_disable_never_lowers_excess : forall (T : tables) (ht : nat -> nat) n o f s r s',
+  heights ht s -> disable T n o f s = Some (r, s') -> forall o' g, (excess T s o' g <= excess T s' o' g)%Z.
+Proof. exact disable_keeps_excess. Qed.
+Print Assumptions C13_disable_never_lowers_excess.
+
+(* "At every point each enabled capability of every object has its prerequisites enabled": in a consistent state
+   requires_self, the chosen alternatives, and (for active objects) requires_children are all enabled. *)
+Theorem C13_consistent_prerequisites_enabled : forall (T : tables) s, consistent T s ->
+  (forall o f g, is_enabled s o f = true -> In g (f_self (feat T (cls_of s o) f)) -> is_enabled s o g = true) /\
+  (forall o f g, In g (fs_alt (get_fs s o f)) -> is_enabled s o g = true) /\
+  (forall p f g c, is_enabled s p 0 = true -> is_enabled s p f = true -> In g (f_children (feat T (cls_of s p) f)) ->
+                   In c (o_children (get_obj s p)) -> is_enabled s c g = true).
+Proof.
+  intros T s C. split; [|split].
+  - intros o f g. apply (consistent_requires_self T s o f g C).
+  - intros o f g. apply (consistent_alternates T s o f g C).
+  - intros p f g c. apply (consistent_requires_children T s p f g c C).
+Qed.
+Print Assumptions C13_consistent_prerequisites_enabled.
+
+(* "no capability is switched off while something that needs it remains" -- FULL statement, for ALL finite sequences of
+   the public deletion operations {switch a feature off, delete a bias, delete a variable with its biases, reset} from
+   any well-formed consistent state: consistency (hence the three prerequisite clauses above) holds afterwards. *)
+Theorem C13_no_switch_off_while_needed : forall (T : tables) n (ps : list mop) m m',
+  forallb deletion_op ps = true -> wf m -> consistent T (m_objs m) -> m_run T n ps m = Some m' ->
+  wf m' /\ consistent T (m_objs m').
+Proof. exact deletions_keep_consistency. Qed.
+Print Assumptions C13_no_switch_off_while_needed.
+
+(* the two primitives behind it *)
+Theorem C13_disable_keeps_consistency : forall (T : tables) (ht : nat -> nat) n o f s r s',
+  heights ht s -> disable T n o f s = Some (r, s') -> consistent T s -> consistent T s'.
+Proof. exact disable_consistent. Qed.
+Print Assumptions C13_disable_keeps_consistency.
+
+Theorem C13_delete_bias_keeps_consistency : forall (T : tables) (ht : nat -> nat) n b s s',
+  heights ht s -> delete_bias T n b s = Some s' -> consistent T s -> consistent T s'.
+Proof. exact delete_bias_consistent. Qed.
+Print Assumptions C13_delete_bias_keeps_consistency.
+
+(* the finite checker that the tie runs (extracted) on every dependency state dumped from the implementation *)
+Theorem C13_consistent_check_sound : forall (T : tables) s G, consistent_check T s G = true -> consistent T s.
+Proof. exact consistent_check_sound. Qed.
+Print Assumptions C13_consistent_check_sound.
+
+(* non-vacuity on the real tables: the state of C13_example_define_delete just before the deletion (two active variables,
+   an active bias on both) is well-formed and consistent; the deletion of the first variable is a deletion sequence *)
+Example C13_example_consistent_computed : exists m m',
+  m_run gen_tables 40 (firstn 8 ex_ops) (m_empty 5) = Some m /\ consistent_check gen_tables (m_objs m) 40 = true /\
+  is_enabled (m_objs m) 7 0 = true /\ is_enabled (m_objs m) 0 0 = true /\ rc (m_objs m) 0 0 = 1%Z /\
+  m_run gen_tables 40 [MDeleteColvar 0] m = Some m'.
+Proof.
+  do 2 eexists. split; [vm_compute; reflexivity|]. split; [vm_compute; reflexivity|]. split; [vm_compute; reflexivity|].
+  split; [vm_compute; reflexivity|]. split; [vm_compute; reflexivity|]. vm_compute. reflexivity.
+Qed.
+
+Example C13_example_consistent : exists m m',
+  m_run gen_tables 40 (firstn 8 ex_ops) (m_empty 5) = Some m /\ wf m /\ consistent gen_tables (m_objs m) /\
+  is_enabled (m_objs m) 7 0 = true /\ is_enabled (m_objs m) 0 0 = true /\ rc (m_objs m) 0 0 = 1%Z /\
+  forallb deletion_op [MDeleteColvar 0] = true /\ m_run gen_tables 40 [MDeleteColvar 0] m = Some m' /\
+  consistent gen_tables (m_objs m').
+Proof.
+  destruct C13_example_consistent_computed as (m & m' & E & Ck & A1 & A2 & A3 & E').
+  assert (W : wf m) by (destruct (C13_initial_state_consistent 5) as (W0 & A0); apply (m_run_wf gen_tables 40 _ _ _ W0 A0 E)).
+  assert (C : consistent gen_tables (m_objs m)) by (apply (consistent_check_sound gen_tables (m_objs m) 40 Ck)).
+  exists m, m'. repeat (split; [assumption || reflexivity|]).
+  apply (deletions_keep_consistency gen_tables 40 [MDeleteColvar 0] m m' eq_refl W C E').
+Qed.
